@@ -109,7 +109,44 @@ func configFuncFieldsRule(r *Run, pkg, owner string) {
 					}
 					return false, ""
 				}
+				// a helper that is handed &cfg and stores a non-nil value into the field on each of its paths
+				setsViaHelper := func(x ssa.Instruction) bool {
+					call, ok := x.(*ssa.Call)
+					if !ok {
+						return false
+					}
+					g := call.Call.StaticCallee()
+					if g == nil || g.Pkg != cd.Pkg || len(g.Blocks) == 0 {
+						return false
+					}
+					for i, a := range call.Call.Args {
+						if a != ssa.Value(src) || i >= len(g.Params) {
+							continue
+						}
+						p := g.Params[i]
+						stores := func(y ssa.Instruction) bool {
+							st, ok := y.(*ssa.Store)
+							if !ok || constIsNil(asConst(st.Val)) {
+								return false
+							}
+							fa, ok := st.Addr.(*ssa.FieldAddr)
+							if !ok || fa.X != ssa.Value(p) {
+								return false
+							}
+							fv := fieldVar(fa.X.Type(), fa.Field)
+							return fv != nil && fieldOwner(fv)+"."+fv.Name() == field
+						}
+						ownReturn := func(y ssa.Instruction) bool { _, ok := y.(*ssa.Return); return ok && y.Parent() == g }
+						if _, hit := reach(entryOf(g), ownReturn, nil, stores); hit == nil {
+							return true
+						}
+					}
+					return false
+				}
 				isSet := func(x ssa.Instruction) bool {
+					if setsViaHelper(x) {
+						return true
+					}
 					st, ok := x.(*ssa.Store)
 					if !ok {
 						return false
